@@ -46,7 +46,7 @@ def run(ctx):
         ctx, "TestOnly", gen_tonl.build_tonl, {"TONL"}, cfg,
         modes_quick=[("single", None), ("seq2", None), ("seq3", 3000), ("spell", None)],
         modes_thorough=[("single", None), ("seq2", None), ("seq3", None), ("spell", None)],
-        devs=[("DedupByName", "seq2", ("Exact",)), ("MatchByName", "single", ("Exact",)), ("StopAtReportedCall", "single", ("Exact",)), ("ExportedOnly", "single", ("Exact",)), ("OnePerPosition", "single", ("Exact",)), ("ElidedSkipped", "single", ("Exact",)), ("LocalUnexportedLost", "single", ("Exact",)), ("QualifierByText", "single", ("Exact",)), ("DedupBySpelling", "spell", ("Exact",)), ("GroupDocLeaks", "single", ("Exact",)),
+        devs=[("DedupByName", "seq2", ("Exact",)), ("MatchByName", "single", ("Exact",)), ("StopAtReportedCall", "single", ("Exact",)), ("ExportedOnly", "single", ("Exact",)), ("OnePerPosition", "single", ("Exact",)), ("ElidedSkipped", "single", ("Exact",)), ("LocalUnexportedLost", "single", ("Exact",)), ("QualifierByText", "single", ("Exact",)), ("DedupBySpelling", "spell", ("Exact",)), ("RecvNameBySyntax", "single", ("Exact",)), ("GroupDocLeaks", "single", ("Exact",)),
               ("SkipMethodNamedLikeFunc", "single", ("Exact",))],
         describe=describe,
         extra_real=[aligned_program()],
